@@ -45,7 +45,7 @@ func main() {
 	o := hlib.Init("C17")
 	debug.SetGCPercent(400)
 	o.Rule = "pool: random step sequences (fill/pick/recheck/dial ok|fail|keyspace-fail/append/kill/close/spurious error) on pools of size 0..6 with and without keyspace, " +
-		"then close+drain; refresh/event: random operation sequences incl. the F-C17-1 trigger; session: Close under load / twice / concurrently / during refresh and reconnect. " +
+		"then close+drain; refresh/event: random operation sequences incl. requests racing stop (the former F-C17-1 trigger); session: Close under load / twice / concurrently / during refresh and reconnect. " +
 		"distinct = distinct Coq case term; non-trivial = the trace contains a contended recheck window, a dial failure, a killed connection, a late append or a blocked stop"
 	gocql.VerifSetEventHook(hk.on)
 
